@@ -521,7 +521,7 @@ pub fn run(tier: &str, seed: u64, dir: &str) {
     let mut sink = Sink::new(dir);
     let thorough = tier == "thorough";
     let depth = if thorough { 4 } else { 3 };
-    let chips: Vec<&str> = if thorough { vec!["1262/d", "1261/t1", "wlhp", "1276", "1272/x"] } else { vec!["1262/d", "1276"] };
+    let chips: Vec<&str> = if thorough { vec!["1262/d", "1261/t1", "1276", "1272/x"] } else { vec!["1262/d", "1276"] };
     for chip in &chips {
         let is126 = is_126(parse_chip(chip).unwrap().variant);
         // all sequences up to `depth`
@@ -546,8 +546,8 @@ pub fn run(tier: &str, seed: u64, dir: &str) {
             let op = line("seqh", chip, &base);
             let ans = obs.iter().map(|o| o.line.clone()).collect::<Vec<_>>().join(" ; ");
             emit2(&mut sink, &op, &ans, &format!("{}-plain-{}", if is126 { "sx126x" } else { "sx127x" }, classify(&ans)));
-            // depth-4 sequences (thorough): faults / drops / outcomes only on a seeded tenth
-            let full = s.len() <= 3 || rng.chance(1, 10);
+            // depth-4 sequences (thorough): faults / drops / outcomes only on a seeded fortieth
+            let full = s.len() <= 3 || rng.chance(1, 40);
             if !full || obs.len() < s.len() {
                 continue;
             }
@@ -606,7 +606,7 @@ pub fn run(tier: &str, seed: u64, dir: &str) {
     }
     sink.finish(
         dir,
-        "every sequence of API calls up to the tier's depth (3 quick / 4 thorough) over the 16-call alphabet {init, sleep warm/cold, prepare_for_tx, tx, prepare_for_rx single/continuous/duty-cycle, start_rx, complete_rx, rx, rx_switch_channel, listen, prepare_for_cad, cad, set_lora_sync_word} on the real LoRa<Sx126x<Sx1262>> and LoRa<Sx127x<Sx1276>> (thorough: + Sx1261 with TCXO, Stm32wl, Sx1272) over the fake chips; for each sequence (depth 4: a seeded tenth): an I/O fault at every SPI / busy / IRQ / RF-switch / reset step of the calls, a future dropped at every await_irq, 11 chip interrupt outcomes (done, timeout, CRC error, header error, spurious, preamble first, CAD done/detected) on every call that reads the IRQ status, and every fault position inside the error path such an outcome triggers. Compared per call: result, the full I/O transcript (hashed in digest lines) and verif_state() = (radio_mode, cold_start, calibrate_image); the Lean side also evaluates I1-I5 on the run. Distinct = distinct op lines; every line is a concrete scenario.",
+        "every sequence of API calls up to the tier's depth (3 quick / 4 thorough) over the 16-call alphabet {init, sleep warm/cold, prepare_for_tx, tx, prepare_for_rx single/continuous/duty-cycle, start_rx, complete_rx, rx, rx_switch_channel, listen, prepare_for_cad, cad, set_lora_sync_word} on the real LoRa<Sx126x<Sx1262>> and LoRa<Sx127x<Sx1276>> (thorough: + Sx1261 with TCXO, Sx1272 with PA_BOOST) over the fake chips; for each sequence (depth 4: a seeded fortieth): an I/O fault at every SPI / busy / IRQ / RF-switch / reset step of the calls, a future dropped at every await_irq, 11 chip interrupt outcomes (done, timeout, CRC error, header error, spurious, preamble first, CAD done/detected) on every call that reads the IRQ status, and every fault position inside the error path such an outcome triggers. Compared per call: result, the full I/O transcript (hashed in digest lines) and verif_state() = (radio_mode, cold_start, calibrate_image); the Lean side also evaluates I1-I5 on the run. Distinct = distinct op lines; every line is a concrete scenario.",
         false,
         serde_json::json!({"alphabet": ALPHABET, "depth": depth, "chips": chips}),
     );
